@@ -191,6 +191,7 @@ func (w *World) DumpPod(p *corev1.Pod) PodDump {
 		}
 		vs, ok := w.Vols[claim]
 		if !ok {
+			d.MissingClaims = append(d.MissingClaims, claim)
 			continue
 		}
 		if vs.Driver != "" {
